@@ -147,9 +147,14 @@ impl UniqueShape {
         if slot.attributes.width_match(key.attributes) {
             slot.attributes = key.attributes;
             property_table.keys[index].1.attributes = key.attributes;
-            // TODO: invalidate the pointer.
+
+            // The attributes are part of what a pointer to this shape stands for (an inline cache
+            // entry for a writable property must not survive `writable: false`), so hand the table
+            // over to a new unique shape, like the other transitions that invalidate pointers.
+            let property_table = std::mem::take(&mut *property_table);
+            let prototype = self.inner.prototype.borrow_mut().take();
             return ChangeTransition {
-                shape: self.clone().into(),
+                shape: Self::new(prototype, property_table).into(),
                 action: ChangeTransitionAction::Nothing,
             };
         }
